@@ -453,7 +453,7 @@ func ruleSync(c *Ctx) {
 			}
 		}
 	}
-	c.minInstances("file-write sites in the commit cone", nWrites, 4)
+	c.minInstances("file-write sites in the commit cone", nWrites, 2)
 }
 
 // ruleFlagBind: every bool parameter that guards a sync event is bound to
